@@ -1879,6 +1879,46 @@ def r_obs_readonly(rep, hc):
         rep.ok("R-OBS-READONLY", key, "x and y are only read")
 
 
+class TermTaintMon(mon.Monitor):
+    """(the terminal limit was read in this iteration, an effect happened since)"""
+    init = ((False, False),)
+    MUT = ("push", "extend", "extend_from_slice", "copy_from_slice", "clone_from_slice", "resize", "insert", "fill", "clear", "truncate", "pop", "remove",
+           "swap", "sort_by", "sort", "retain", "drain", "last_mut", "iter_mut", "get_mut", "push_str")
+
+    def __init__(self, is_tc, tainted, loops):
+        super().__init__()
+        self.is_tc, self.tainted, self.loops = is_tc, tainted, loops
+
+    def step(self, st, ev):
+        kind, n = ev[0], ev[1]
+        t, d = st
+        if kind in ("for_head", "node") and id(n) in self.loops:
+            return ((False, False),)
+        if kind == "node":
+            k = n.get("k")
+            if self.is_tc(n) or (k == "Path" and n.get("id") in self.tainted):
+                return ((True, d),)
+            if t and (k in ("Assign", "AssignOp") or (k == "MethodCall" and n.get("name") in self.MUT)):
+                return ((True, True),)
+        if t and kind == "break" and not self._inner(n):
+            self.violate("break", "a `break` out of the event loop depends on the terminal occurrence limit: the remaining event functions / events of this step are skipped", n, self.cur_trail)
+        if t and d and kind == "continue":
+            self.violate("continue", "an iteration that read the terminal occurrence limit goes on to the next event after changing state", n, self.cur_trail)
+        if kind == "return":
+            fl = ((n.get("e") or {}).get("def") or "")
+            if t and fl != FLAG + "Interrupt":
+                self.violate("return", "a return other than Interrupt depends on the terminal occurrence limit", n, self.cur_trail)
+            return ((False, False),)
+        if t and d and kind == "fn_end":
+            self.violate("end", "state is changed on a path that read the terminal occurrence limit and does not stop the run", n, self.cur_trail)
+        return (st,)
+
+    def _inner(self, n):
+        """a break of a loop nested inside the handler's event loops (the t_eval flush) is not a break out of them"""
+        tgt = n.get("target")
+        return tgt is not None and tgt not in self.loop_ids
+
+
 def r_term_taint(rep, hc):
     """terminal_count is read only by the handler's Interrupt decision"""
     f = hc.f
@@ -1902,8 +1942,22 @@ def r_term_taint(rep, hc):
                 par = parents[-1]
                 if not (par.get("k") == "Binary" and par["op"] in ("Ge", "Gt", "Le", "Lt", "Eq", "Ne")):
                     probs.append(tast.render(par))
+    # control: once the limit has been read in an iteration of the handler's event loops, a path either returns Interrupt
+    # or performs no effect before the iteration ends (typestate over all paths)
+    is_tc = lambda q: q.get("k") == "Field" and (q.get("fdef") or "").endswith("EventConfig::terminal_count")
+    body = hc.body["body"]
+    tainted = set()
+    for lt in tast.find(body, lambda z: z.get("k") in ("LetExpr", "Let") and z.get("init") is not None and tast.contains(z["init"], is_tc)):
+        for bnd in tast.find(lt["pat"], lambda z: z.get("k") == "PBind"):
+            tainted.add(bnd["id"])
+    loops = {id(x) for x in (hc.detect_for(), hc.process_for()) if x is not None}
+    tm = TermTaintMon(is_tc, tainted, loops)
+    tm.loop_ids = {x.get("id") for x in (hc.detect_for(), hc.process_for()) if x is not None}
+    mon.Runner(tm).run_fn(hc.body)
+    for vkey, msg, node, trail in tm.violations:
+        probs.append("%s at %s" % (msg, sp(node)))
     if probs:
-        rep.violation(key, "%s:%s:use" % (key, hc.fn), "the terminal occurrence limit is used outside a comparison: %s" % probs[:2], hc.body.get("sp"))
+        rep.violation(key, "%s:%s:use" % (key, hc.fn), "the terminal occurrence limit influences more than the decision to stop: %s; everything reported before the stop must be what the run without the terminal flag reports" % probs[:2], hc.body.get("sp"))
     elif not outside:
         rep.ok(key, "%s:%s" % (key, hc.fn), "terminal_count only feeds the hits >= limit test")
 
@@ -2141,3 +2195,128 @@ def r_mode2_record(rep, hc):
             rep.violation("R-MODE2-RECORD", key,
                           "the output handler skips accepted steps until x0 + first_step is reached, but solve_ivp passes first_step unbounded: "
                           "with first_step > |xend - x0| no step is ever reported (t = [x0], Success)", sp(news[0]))
+
+
+def r_dir_from(rep, f):
+    """the integer form of a direction filter (SciPy's convention, used by bindings) selects by sign: every positive integer is
+    Positive, every negative one Negative, 0 is All. The conversion is evaluated exactly at every integer literal occurring
+    in it, its neighbours, and the ends of the i32 range: a function made of comparisons with literals is constant between them"""
+    key = "R-DIR-FROM"
+    fns = [n for n in f.bodies if n.startswith("<solve::event::Direction as std::convert::From<i")]
+    if not fns:
+        rep.note("no integer conversion into Direction in this build")
+        return
+    from cxs import CxS, CxPanic
+    for fn in fns:
+        b = f.bodies[fn]
+        rep.fn(fn)
+        lits = set()
+        for z in tast.find(b["body"], lambda z: z.get("k") in ("Lit", "PLit") or (z.get("k") == "Unary" and z.get("op") == "Neg")):
+            try:
+                if z.get("k") == "Unary":
+                    lits.add(-int(str(z["e"].get("v"))))
+                else:
+                    v = z.get("v") if z.get("k") == "Lit" else (z.get("e") or z).get("v")
+                    lits.add(-int(str(v)) if z.get("neg") else int(str(v)))
+            except Exception:
+                pass
+        pts = {0, 1, -1, 2, -2, 7, -7, 2 ** 31 - 1, -2 ** 31}
+        for l in lits:
+            pts |= {l - 1, l, l + 1, -l, -l - 1, -l + 1}
+        pts = sorted(p for p in pts if -2 ** 31 <= p <= 2 ** 31 - 1)
+        bad = []
+        for v in pts:
+            want = "Positive" if v > 0 else "Negative" if v < 0 else "All"
+            try:
+                r = CxS(f).call_fn(fn, [v])
+                got = (r.get("__variant") or "?").rsplit("::", 1)[-1] if isinstance(r, dict) else repr(r)
+            except CxPanic as e:
+                got = "panic (%s)" % e
+            except Exception as e:
+                rep.inconc(key, "%s:%s" % (key, fn), "conversion not evaluated at %d: %s" % (v, str(e)[:120]))
+                bad = None
+                break
+            if got != want:
+                bad.append((v, got, want))
+        if bad is None:
+            continue
+        if bad:
+            v, got, want = bad[0]
+            rep.violation(key, "%s:%s" % (key, fn), "Direction::from(%d) is %s, expected %s (%d of %d model points differ): an integer direction with that sign selects the wrong crossings" % (v, got, want, len(bad), len(pts)), b["body"].get("sp"))
+        else:
+            rep.ok(key, "%s:%s" % (key, fn), "sign convention holds at %d model points (literals of the function %s, their neighbours, i32 range ends)" % (len(pts), sorted(lits)))
+
+
+class CurrMon(mon.Monitor):
+    """state of the buffer that receives the event values at the step end (x, y): none | end | other (last written by an
+    evaluation at another point, or partially overwritten)"""
+    init = ("none",)
+
+    def __init__(self, hc, buf, top_lets):
+        super().__init__()
+        self.hc, self.buf, self.top_lets = hc, buf, top_lets
+        self.n_sinks = set()
+
+    def _is_param(self, e, pid):
+        while e.get("k") in ("AddrOf", "Cast", "DropTemps") or (e.get("k") == "Unary" and e.get("op") == "Deref"):
+            e = e["e"]
+        return e.get("k") == "Path" and e.get("id") == pid
+
+    def step(self, st, ev):
+        kind, n = ev[0], ev[1]
+        hc, buf = self.hc, self.buf
+        if kind == "node":
+            k = n.get("k")
+            if k == "MethodCall" and n.get("def") == EVENTS and len(n["args"]) == 3 and tast.contains(n["args"][2], lambda z: hc.field_is(z, buf)):
+                at_end = self._is_param(n["args"][0], hc.pid[2]) and self._is_param(n["args"][1], hc.pid[3])
+                return ("end" if at_end else "other",)
+            if k in ("Assign", "AssignOp") and tast.contains(n["l"], lambda z: hc.field_is(z, buf)):
+                return ("other",)
+            if k == "MethodCall" and n.get("name") in ("copy_from_slice", "clone_from_slice", "fill", "swap", "swap_with_slice", "resize", "clear", "iter_mut") \
+                    and tast.contains(n["recv"], lambda z: hc.field_is(z, buf)):
+                return ("other",)
+            if k == "MethodCall" and n.get("name") in ("copy_from_slice", "clone_from_slice") and hc.field_is(n["recv"], "prev_event") \
+                    and tast.contains(n["args"][0], lambda z: hc.field_is(z, buf)):
+                self.n_sinks.add(id(n))
+                if st != "end":
+                    self.violate("prev", "the values stored as `prev_event` are read from `%s` after it was overwritten by an evaluation of the event functions at another point "
+                                 "(or element-wise): the next step compares against values that are not the step-end values" % buf, n, self.cur_trail)
+            if k == "Let" and id(n) in self.top_lets:
+                self.n_sinks.add(id(n))
+                if st != "end":
+                    self.violate("curr", "the current value of an event function is read from `%s` after an earlier event's root search overwrote it with values at another time: "
+                                 "a sign change of this function in the step is judged on the wrong value" % buf, n, self.cur_trail)
+        return (st,)
+
+
+def r_evt_curr_stable(rep, hc):
+    """the event values at the step end are evaluated once per callback into one buffer; every read of them as `current value`
+    (per event function, in the detection loop) and the copy into prev_event see exactly that evaluation: no evaluation at
+    another point and no element-wise write reaches the same buffer in between (typestate over all paths, loops to a fix-point)"""
+    key = "R-EVT-CURR:%s" % hc.fn
+    ends = []
+    is_p = CurrMon._is_param
+    for n in tast.find(hc.body["body"], lambda z: z.get("k") == "MethodCall" and z.get("def") == EVENTS and len(z["args"]) == 3):
+        if is_p(None, n["args"][0], hc.pid[2]) and is_p(None, n["args"][1], hc.pid[3]):
+            flds = tast.find(n["args"][2], lambda z: z.get("k") == "Field" and (z.get("fdef") or "").startswith(DSO))
+            if flds:
+                ends.append(flds[0]["name"])
+    if len(set(ends)) != 1:
+        rep.inconc("R-EVT-CURR", key, "expected one buffer receiving the event values at (x, y), found %s" % sorted(set(ends)))
+        return
+    buf = ends[0]
+    df = hc.detect_for()
+    top = set()
+    if df is not None and df["body"].get("k") == "Block":
+        for st_ in df["body"].get("stmts", []):
+            if st_.get("k") == "Let" and st_.get("init") is not None and tast.contains(st_["init"], lambda z: z.get("k") == "Index" and hc.field_is(z["e"], buf)):
+                top.add(id(st_))
+    m = CurrMon(hc, buf, top)
+    mon.Runner(m).run_fn(hc.body)
+    for vkey, msg, node, trail in m.violations:
+        rep.violation("R-EVT-CURR", "%s:%s" % (key, vkey), msg + " (path: %s)" % " -> ".join(trail[-6:]), sp(node))
+    if not m.violations:
+        if len(m.n_sinks) < 2:
+            rep.inconc("R-EVT-CURR", key, "only %d use(s) of the step-end event values found (expected the per-event read and the prev_event copies)" % len(m.n_sinks))
+        else:
+            rep.ok("R-EVT-CURR", key, "`%s` holds the evaluation at (x, y) at all %d reads as current value / copies into prev_event" % (buf, len(m.n_sinks)))
